@@ -499,8 +499,8 @@ def level_name(rng, base, ranged, tags):
 
 
 def gen_config(rng, cfg_idx, tags):
-    """-> (yaml level list, [Comp]).  Component names are unique over all configurations (the compiler keys components
-    by name globally): configuration i > 0 suffixes every name with `_c<i>`.  Level names may repeat."""
+    """-> (yaml level list, [Comp]).  Configuration i > 0 suffixes every component name with `_c<i>`, or (40%) reuses
+    the names of configuration 0 (components are looked up in the Einsum's own configuration).  Level names may repeat."""
     classic = rng.random() < 0.45
     if classic:
         # the textbook hierarchy: DRAM at the root, a shared buffer per chip, a private buffer per PE
@@ -527,6 +527,10 @@ def gen_config(rng, cfg_idx, tags):
         tags.append("arch_siblings")
     comps = []
     sfx = "" if cfg_idx == 0 else "_c%d" % cfg_idx
+    if cfg_idx > 0 and rng.random() < 0.4:
+        # configurations may reuse component names (as the bundled OuterSPACE specification does)
+        sfx = ""
+        tags.append("reused_component_names")
 
     def mk(base, cls, class_str, attrs):
         return {"name": base + sfx, "class": class_str, "attributes": attrs}, cls
